@@ -61,6 +61,28 @@ def history (j : Json) : Except String Json := do
   return jobj [("model", jobj [("errs", jarr (r.1.map jerr)), ("state", jopt jcps r.2)]),
                ("hyp", jbool hyp)]
 
+def jobs : UseObs → Json
+  | .assigned e => jobj [("err", jerr e)]
+  | .converted r => jobj [("base16", jexc jcps r)]
+  | .unset => jobj [("unset", jbool true)]
+
+/-- `c14.use`: a history of assignments and conversions (`entry` = xt | infohash | torrent) on one
+    object: model (`runUse`) and specification (`specUse`). -/
+def use (j : Json) : Except String Json := do
+  let prior ← getOptCps j "prior"
+  let ops ← (← getArr j "ops").mapM fun o => do
+    let e ← getStr o "entry"
+    if e == "torrent" then pure UseOp.convert
+    else do
+      let v ← getCps o "v"
+      pure (UseOp.assign (← stepOf e v))
+  let m := runUse prior ops
+  let s := specUse prior ops
+  let hyp := useNoFold ops && (match prior with | some p => validHash p | none => true)
+  return jobj [("model", jobj [("obs", jarr (m.1.map jobs)), ("state", jopt jcps m.2)]),
+               ("spec", jobj [("obs", jarr (s.1.map jobs)), ("state", jopt jcps s.2)]),
+               ("hyp", jbool hyp)]
+
 /-- `c14.xl`: value = null | {"int": i} | {"raise": true} -/
 def xl (j : Json) : Except String Json := do
   let prior : Option Int := (j.getObjValAs? Int "prior").toOption
@@ -127,6 +149,7 @@ def handle (op : String) (j : Json) : Except String Json :=
   match op with
   | "c14.hash" => hash j
   | "c14.history" => history j
+  | "c14.use" => use j
   | "c14.xl" => xl j
   | "c14.urls" => urls j
   | "c14.getinfo" => getinfo j
